@@ -276,9 +276,9 @@ func checkSat(scen string, in SatIn, nValid bool) *mc.Violation {
 	return nil
 }
 
-var validVersions = []string{"0", "1", "1.0", "1.00", "1.0-0", "1.0-1", "0:1.0", "1:0", "1:1.0-1", "1.0~rc1", "1.0+b1", "1.0a", "1.0.", "1.0-1~", "1.0-1+b1",
+var validVersions = append(gen.AuditIntStrings(0, 1<<62, 6), "0", "1", "1.0", "1.00", "1.0-0", "1.0-1", "0:1.0", "1:0", "1:1.0-1", "1.0~rc1", "1.0+b1", "1.0a", "1.0.", "1.0-1~", "1.0-1+b1",
 	"9", "10", "09", "1.9", "1.10", "2", "2.0-1", "1.0~", "1.0~~", "1a", "1+", "1.", "1-0", "1-1", "2:0", "1.0-a", "1.0-1.1", "1.2.3", "1.2.10",
-	"99999999999999999999", "100000000000000000000", "0.0", "0~", "1:1", "1.0-00"}
+	"99999999999999999999", "100000000000000000000", "0.0", "0~", "1:1", "1.0-00")
 var invalidNumbers = []string{"", "a", "1 2", "1:", ":1", "-", "1_0", "a:1"}
 
 func Run(r *mc.Run) {
@@ -323,11 +323,18 @@ func Run(r *mc.Run) {
 	isScen("is-generic-65x65", dom)
 	real := []string{"amd64", "i386", "any", "all", "linux-any", "any-amd64", "any-i386", "linux-amd64", "hurd-i386", "hurd-any", "kfreebsd-amd64", "kfreebsd-any",
 		"gnu-linux-amd64", "musl-linux-amd64", "gnu-kfreebsd-amd64", "gnu-hurd-i386", "any-any-any", "any-linux-any", "musl-any-any", "musl-linux-any", "gnu-any-amd64", "armhf", "gnueabihf-linux-arm"}
+	for _, t := range gen.AuditStrings(func(s string) bool { return gen.Nameish(s) && !strings.Contains(s, "-") }, 3) {
+		real = append(real, t, t+"-any", "any-"+t, t+"-amd64", "linux-"+t, "gnu-"+t+"-amd64", "gnu-linux-"+t) // alphabet audit
+	}
 	isScen("is-real-names", real)
 
 	// 2: lists
 	pats := []string{"amd64", "i386", "linux-any", "any-amd64", "kfreebsd-any", "any"}
 	concs := []string{"amd64", "i386", "kfreebsd-amd64", "hurd-i386", "musl-linux-amd64"}
+	for _, t := range gen.AuditStrings(func(s string) bool { return gen.Nameish(s) && !strings.Contains(s, "-") }, 2) {
+		pats = append(pats, t+"-any", "any-"+t)
+		concs = append(concs, t, t+"-amd64", "linux-"+t)
+	}
 	var lists [][]string
 	lists = append(lists, nil)
 	if !r.Quick() {
